@@ -53,9 +53,9 @@ func init() {
 			c.runWrongVar("WRONGVAR", c.libPkgs()[:3], nil)
 			c.floor("WRONGVAR", 2)
 			c.runModFrac("MODFRAC", append(c.libPkgs()[:3:3], c.fixturePkg("s")))
-			c.floor("MODFRAC", 2)
+			c.floor("MODFRAC", 0)
 			c.runCanonFirstFiles("CANON", c.libPkgs()[:1], baseIn("mesh.go"))
-			c.floor("CANON", 1)
+			c.floor("CANON", 0)
 		},
 	})
 }
